@@ -1337,12 +1337,24 @@ func (f *Frame) havocLoc(e *CExpr, env *Env, post *State) {
 					name = e.Args[0].Str
 				}
 				s, ok := f.E.P.Spec.ghostSort(name)
+				if name == allocKey {
+					s, ok = allocSort, true
+				}
 				if !ok {
 					if os, ok2 := post.sorts[name]; ok2 {
 						s = os
 					} else {
 						f.E.fail("unknown ghost/state key %s in modifies", name)
 					}
+				}
+				if name == allocKey {
+					// key(ALLOC): the callee allocates; allocation only grows
+					cur := post.Get(allocKey, allocSort)
+					f.E.noteVars(cur)
+					nv := f.fresh("hv$"+name, allocSort)
+					f.assume(Ge(nv, cur), "allocated objects stay allocated")
+					post.Set(name, allocSort, nv)
+					return
 				}
 				post.Set(name, s, f.fresh("hv$"+name, s))
 				return
@@ -1856,6 +1868,12 @@ func (e *Enc) instrModKeys(in ssa.Instruction, m map[string]*Sort, includeLocal 
 func (e *Enc) addMapKeys(m map[string]*Sort, t types.Type) {
 	mt := t.Underlying().(*types.Map)
 	ks, _, ok := scalarSortOf(mt.Key(), e.Mode)
+	if !ok {
+		if _, isIface := mt.Key().Underlying().(*types.Interface); isIface {
+			// interface keys are packed into Int by ikey (see mapInfo)
+			ks, ok = IntS, true
+		}
+	}
 	if !ok {
 		return
 	}
